@@ -263,6 +263,41 @@ theorem splitLines_line (content rest : Bytes) (h1 : NL ∉ content) (h2 : conte
   unfold splitLines
   rw [splitLinesGo_line _ _ _ h1, List.nil_append, mkLine_plain _ h2]
 
+/-- the terminator class a hunk line has in the text of a diff: CR LF for a `.crlf` line, LF otherwise
+    (a `.none` line is written with LF and followed by the marker line) -/
+def wireNl (l : Line) : NewLine := if l.newline = .crlf then .crlf else .lf
+
+theorem wireNl_ne_none (l : Line) : wireNl l ≠ .none := by
+  unfold wireNl; split <;> simp
+
+theorem wireNl_of_ne_none {l : Line} (h : l.newline ≠ .none) : wireNl l = l.newline := by
+  rcases l with ⟨c, nl⟩
+  cases nl
+  · rfl
+  · rfl
+  · exact absurd rfl h
+
+theorem wireNl_of_none {l : Line} (h : l.newline = .none) : wireNl l = .lf := by
+  unfold wireNl; rw [h]; rfl
+
+theorem mkLine_cr (content : Bytes) : mkLine (content ++ [CR]) = ⟨content, .crlf⟩ := by
+  unfold mkLine; simp
+
+/-- a line written with its own terminator (`lineEnd`) is read back with its content and its class -/
+theorem splitLines_wire (content : Bytes) (l : Line) (rest : Bytes) (h1 : NL ∉ content) (h2 : content.getLast? ≠ some CR) :
+    splitLines (content ++ (lineEnd l ++ rest)) = ⟨content, wireNl l⟩ :: splitLines rest := by
+  unfold lineEnd wireNl
+  split
+  · have e : content ++ ([CR, NL] ++ rest) = (content ++ [CR]) ++ NL :: rest := by simp
+    have h1' : NL ∉ content ++ [CR] := by
+      intro hm
+      rcases List.mem_append.1 hm with h | h
+      · exact h1 h
+      · simp at h; exact absurd h (by decide)
+    unfold splitLines
+    rw [e, splitLinesGo_line _ _ _ h1', List.nil_append, mkLine_cr]
+  · exact splitLines_line content rest h1 h2
+
 
 
 
@@ -292,7 +327,7 @@ def markerLine : Line := ⟨markerText, .lf⟩
 /-- the lines of the body of an emitted hunk -/
 def bodyLines : List PatchLine → List Line
   | [] => []
-  | pl :: rest => ⟨pl.op :: pl.line.content, .lf⟩ :: ((if pl.line.newline = .none then [markerLine] else []) ++ bodyLines rest)
+  | pl :: rest => ⟨pl.op :: pl.line.content, wireNl pl.line⟩ :: ((if pl.line.newline = .none then [markerLine] else []) ++ bodyLines rest)
 
 def hunkLines (h : Hunk) : List Line := ⟨rangeText h, .lf⟩ :: bodyLines h.lines
 
@@ -317,7 +352,7 @@ theorem rangeText_last (h : Hunk) : (rangeText h).getLast? ≠ some CR := by
 
 theorem writeHunkUnified_eq (h : Hunk) :
     writeHunkUnified h = rangeText h ++ NL ::
-      (h.lines.flatMap fun pl => [pl.op] ++ pl.line.content ++ [NL]
+      (h.lines.flatMap fun pl => [pl.op] ++ pl.line.content ++ lineEnd pl.line
             ++ (if pl.line.newline = NewLine.none then noNewlineMarker else [])) := by
   unfold writeHunkUnified rangeText
   have : str " @@\n" = str " @@" ++ [NL] := by rw [str_sp_atat_nl, str_sp_atat]; rfl
@@ -327,7 +362,7 @@ theorem writeHunkUnified_eq (h : Hunk) :
 theorem splitLines_body (ls : List PatchLine) (rest : Bytes)
     (hops : ∀ pl ∈ ls, pl.op = SP ∨ pl.op = PLUS ∨ pl.op = MINUS)
     (hplain : ∀ pl ∈ ls, plainLine pl.line = true) :
-    splitLines ((ls.flatMap fun pl => [pl.op] ++ pl.line.content ++ [NL]
+    splitLines ((ls.flatMap fun pl => [pl.op] ++ pl.line.content ++ lineEnd pl.line
             ++ (if pl.line.newline = NewLine.none then noNewlineMarker else [])) ++ rest)
       = bodyLines ls ++ splitLines rest := by
   induction ls with
@@ -351,9 +386,10 @@ theorem splitLines_body (ls : List PatchLine) (rest : Bytes)
       | cons c cs =>
         rw [List.getLast?_cons_cons, ← hc]; exact hpl.2
     rw [List.flatMap_cons, bodyLines]
-    have e : ∀ (x y : Bytes), ([pl.op] ++ pl.line.content ++ [NL] ++ x) ++ y = (pl.op :: pl.line.content) ++ NL :: (x ++ y) := by
+    have e : ∀ (x y : Bytes), ([pl.op] ++ pl.line.content ++ lineEnd pl.line ++ x) ++ y
+        = (pl.op :: pl.line.content) ++ (lineEnd pl.line ++ (x ++ y)) := by
       intro x y; simp
-    rw [List.append_assoc, e, splitLines_line _ _ h1 h2, List.cons_append]
+    rw [List.append_assoc, e, splitLines_wire _ _ _ h1 h2, List.cons_append]
     congr 1
     revert ih'
     generalize (List.flatMap _ ls ++ rest) = T
@@ -587,6 +623,14 @@ theorem stepOld_mark (st1 : UState) (what : UInt8) (hw : what = SP ∨ what = MI
 theorem getLine_lf (content : Bytes) (r : List Line) (n : Nat) :
     Parser.getLine ⟨⟨⟨content, .lf⟩ :: r, false, false⟩, n⟩ = (some ⟨content, .lf⟩, ⟨⟨r, false, false⟩, n + 1⟩) := rfl
 
+/-- a line that has a terminator is handed out as it is -/
+theorem getLine_wire (content : Bytes) (nl : NewLine) (hnl : nl ≠ .none) (r : List Line) (n : Nat) :
+    Parser.getLine ⟨⟨⟨content, nl⟩ :: r, false, false⟩, n⟩ = (some ⟨content, nl⟩, ⟨⟨r, false, false⟩, n + 1⟩) := by
+  cases nl
+  · rfl
+  · rfl
+  · exact absurd rfl hnl
+
 theorem peek_marker (r : List Line) (e b : Bool) : PStream.peek ⟨markerLine :: r, e, b⟩ = BACKSLASH := rfl
 
 /-- the state after the two bookkeeping steps of one emitted hunk line -/
@@ -596,17 +640,17 @@ theorem steps_spec (pl : PatchLine) (rest' : List PatchLine) (n : Nat) (hunks : 
     (hops : ∀ pl ∈ rest', pl.op = SP ∨ pl.op = PLUS ∨ pl.op = MINUS)
     (hnl : noNlOnlyLast (pl :: rest') = true) (hafter : AfterOK after) :
     ∃ n', stepOld (stepNew ⟨⟨⟨(if pl.line.newline = .none then [markerLine] else []) ++ bodyLines rest' ++ after, false, false⟩, n⟩,
-              hunks, ⟨o, nw, L ++ [⟨pl.op, ⟨pl.line.content, .lf⟩⟩]⟩, true,
+              hunks, ⟨o, nw, L ++ [⟨pl.op, ⟨pl.line.content, wireNl pl.line⟩⟩]⟩, true,
               (oldOf (pl :: rest')).length, (newOf (pl :: rest')).length⟩ pl.op) pl.op
-      = ⟨⟨⟨bodyLines rest' ++ after, false, false⟩, n'⟩, hunks, ⟨o, nw, L ++ [pl.normNl]⟩, true,
+      = ⟨⟨⟨bodyLines rest' ++ after, false, false⟩, n'⟩, hunks, ⟨o, nw, L ++ [pl]⟩, true,
           (oldOf rest').length, (newOf rest').length⟩ := by
   rcases pl with ⟨op, ⟨c, nl⟩⟩
   have hpk := peek_body rest' after hafter hops false false
   simp only at hop
-  simp only [PatchLine.normNl, Line.normNl]
   by_cases hn : nl = .none
   · subst hn
-    simp only [if_true, List.cons_append]
+    have hwn : wireNl ⟨c, NewLine.none⟩ = .lf := rfl
+    simp only [hwn, if_true, List.cons_append]
     unfold noNlOnlyLast at hnl
     simp only [if_true, Bool.and_eq_true] at hnl
     rcases hop with rfl | rfl | rfl
@@ -633,7 +677,8 @@ theorem steps_spec (pl : PatchLine) (rest' : List PatchLine) (n : Nat) (hunks : 
       rw [stepNew_minus, stepOld_mark _ _ (Or.inr rfl) (by simp) (peek_marker _ _ _)]
       simp only [markerLine, getLine_lf, markLastNone_snoc]
       simp
-  · simp only [hn, if_false, List.nil_append]
+  · have hwn : wireNl ⟨c, nl⟩ = nl := wireNl_of_ne_none hn
+    simp only [hwn, hn, if_false, List.nil_append]
     refine ⟨n, ?_⟩
     rcases hop with rfl | rfl | rfl
     · rw [Splice.oldOf_cons_not_plus rfl, Splice.newOf_cons_not_minus rfl]
@@ -647,7 +692,7 @@ theorem steps_spec (pl : PatchLine) (rest' : List PatchLine) (n : Nat) (hunks : 
       simp
 
 theorem bodyLines_cons_append (pl : PatchLine) (rest' : List PatchLine) (after : List Line) :
-    bodyLines (pl :: rest') ++ after = ⟨pl.op :: pl.line.content, .lf⟩ ::
+    bodyLines (pl :: rest') ++ after = ⟨pl.op :: pl.line.content, wireNl pl.line⟩ ::
       ((if pl.line.newline = .none then [markerLine] else []) ++ bodyLines rest' ++ after) := by
   simp [bodyLines]
 
@@ -659,7 +704,7 @@ theorem unifiedLoop_body : ∀ (rest : List PatchLine) (fuel n : Nat) (hunks : L
     ∃ fuel' n', after.length + 1 ≤ fuel' ∧
       unifiedLoop fuel ⟨⟨⟨bodyLines rest ++ after, false, false⟩, n⟩, hunks, ⟨o, nw, L⟩, true,
           (oldOf rest).length, (newOf rest).length⟩
-        = afterHunk fuel' ⟨⟨⟨after, false, false⟩, n'⟩, hunks ++ [⟨o, nw, L ++ rest.map PatchLine.normNl⟩], ⟨o, nw, []⟩,
+        = afterHunk fuel' ⟨⟨⟨after, false, false⟩, n'⟩, hunks ++ [⟨o, nw, L ++ rest⟩], ⟨o, nw, []⟩,
             true, 0, 0⟩ := by
   intro rest
   induction rest with
@@ -670,7 +715,8 @@ theorem unifiedLoop_body : ∀ (rest : List PatchLine) (fuel n : Nat) (hunks : L
     have hops' : ∀ x ∈ rest', x.op = SP ∨ x.op = PLUS ∨ x.op = MINUS := fun x hx => hops x (List.mem_cons_of_mem _ hx)
     rw [bodyLines_cons_append] at hfuel ⊢
     obtain ⟨f, rfl⟩ : ∃ f, fuel = f + 1 := ⟨fuel - 1, by simp at hfuel; omega⟩
-    rw [unifiedLoop_content f _ ⟨pl.op :: pl.line.content, .lf⟩ _ pl.op pl.line.content (getLine_lf _ _ _) rfl rfl hop]
+    rw [unifiedLoop_content f _ ⟨pl.op :: pl.line.content, wireNl pl.line⟩ _ pl.op pl.line.content
+      (getLine_wire _ _ (wireNl_ne_none _) _ _) rfl rfl hop]
     obtain ⟨n', hn'⟩ := steps_spec pl rest' (n + 1) hunks o nw L after hop hops' hnl hafter
     dsimp only
     rw [hn']
@@ -683,7 +729,7 @@ theorem unifiedLoop_body : ∀ (rest : List PatchLine) (fuel n : Nat) (hunks : L
     · rw [if_neg (sides_ne_nil rest' hr hops')]
       have hnl' : noNlOnlyLast rest' = true := by
         unfold noNlOnlyLast at hnl; simp only [Bool.and_eq_true] at hnl; exact hnl.2
-      obtain ⟨fuel', n'', h1, h2⟩ := ih f n' hunks o nw (L ++ [pl.normNl]) after hr hops' hnl' hafter
+      obtain ⟨fuel', n'', h1, h2⟩ := ih f n' hunks o nw (L ++ [pl]) after hr hops' hnl' hafter
         (by simp at hfuel ⊢; omega)
       refine ⟨fuel', n'', h1, ?_⟩
       rw [h2]; simp
@@ -755,12 +801,14 @@ theorem afterHunk_tail (fuel n : Nat) (hunks : List Hunk) (hk : Hunk) (tail : Li
       unfold tailOkUnified at ht
       simp only [Bool.and_eq_true, Bool.not_eq_true'] at ht
       exact ht.1
-    have hg : ∃ par5, Parser.getLine ⟨⟨l :: r, false, false⟩, n⟩ = (some l, par5) := by
+    have hg : ∃ l' par5, Parser.getLine ⟨⟨l :: r, false, false⟩, n⟩ = (some l', par5) ∧ l'.content = l.content := by
       by_cases hn : l.newline = .none
-      · exact ⟨_, by simp [Parser.getLine, PStream.getLine, hn]; rfl⟩
-      · exact ⟨_, by simp [Parser.getLine, PStream.getLine, hn]; rfl⟩
-    obtain ⟨par5, hg⟩ := hg
-    simp only [hg]
+      · refine ⟨⟨l.content, .lf⟩, ⟨⟨r, true, false⟩, n + 1⟩, ?_, rfl⟩
+        simp [Parser.getLine, PStream.getLine, hn]
+      · refine ⟨l, ⟨⟨r, false, false⟩, n + 1⟩, ?_, rfl⟩
+        simp [Parser.getLine, PStream.getLine, hn]
+    obtain ⟨l', par5, hg, hl'⟩ := hg
+    simp only [hg, hl']
     generalize parseUnifiedRange hk l.content = res at hp
     rcases res with ⟨ok, h'⟩
     simp only at hp
@@ -769,13 +817,16 @@ theorem afterHunk_tail (fuel n : Nat) (hunks : List Hunk) (hk : Hunk) (tail : Li
 
 theorem normNl_eq (h : Hunk) : (⟨h.old, h.new, [] ++ h.lines.map PatchLine.normNl⟩ : Hunk) = h.normNl := rfl
 
+/-- the hunk the body loop hands over is the hunk itself -/
+theorem hunk_eq (h : Hunk) : (⟨h.old, h.new, [] ++ h.lines⟩ : Hunk) = h := rfl
+
 /-- the loop over a list of emitted hunks, entered after the first range line -/
 theorem unifiedLoop_hunks : ∀ (hs : List Hunk) (h : Hunk) (fuel n : Nat) (hunks : List Hunk) (tail : List Line),
     (∀ x ∈ h :: hs, x.writable = true) → tailOkUnified tail = true →
     (bodyLines h.lines ++ (hs.flatMap hunkLines ++ tail)).length + 1 ≤ fuel →
     ∃ st', unifiedLoop fuel ⟨⟨⟨bodyLines h.lines ++ (hs.flatMap hunkLines ++ tail), false, false⟩, n⟩, hunks,
           ⟨h.old, h.new, []⟩, true, h.old.count, h.new.count⟩ = .ok (true, st') ∧
-      st'.hunks = hunks ++ (h :: hs).map Hunk.normNl ∧ st'.par.s.rest = tail := by
+      st'.hunks = hunks ++ (h :: hs) ∧ st'.par.s.rest = tail := by
   intro hs
   induction hs with
   | nil =>
@@ -784,9 +835,9 @@ theorem unifiedLoop_hunks : ∀ (hs : List Hunk) (h : Hunk) (fuel n : Nat) (hunk
     simp only [List.flatMap_nil, List.nil_append] at hfuel ⊢
     obtain ⟨fuel', n', _, h2⟩ := unifiedLoop_body h.lines fuel n hunks h.old h.new [] tail hne hops hnl
       (afterOK_tail tail ht) hfuel
-    rw [hoc, hnc, h2, normNl_eq]
-    obtain ⟨st', e1, e2, e3⟩ := afterHunk_tail fuel' n' (hunks ++ [h.normNl]) ⟨h.old, h.new, []⟩ tail ht
-    exact ⟨st', e1, by rw [e2]; rfl, e3⟩
+    rw [hoc, hnc, h2, hunk_eq]
+    obtain ⟨st', e1, e2, e3⟩ := afterHunk_tail fuel' n' (hunks ++ [h]) ⟨h.old, h.new, []⟩ tail ht
+    exact ⟨st', e1, by rw [e2], e3⟩
   | cons h2 hs ih =>
     intro h fuel n hunks tail hw ht hfuel
     obtain ⟨hops, hoc, hnc, hne, _, hnl, _⟩ := writable_spec h (hw h List.mem_cons_self)
@@ -794,20 +845,24 @@ theorem unifiedLoop_hunks : ∀ (hs : List Hunk) (h : Hunk) (fuel n : Nat) (hunk
     rw [List.flatMap_cons, List.append_assoc] at hfuel ⊢
     obtain ⟨fuel', n', h1, h2'⟩ := unifiedLoop_body h.lines fuel n hunks h.old h.new []
       (hunkLines h2 ++ (hs.flatMap hunkLines ++ tail)) hne hops hnl (afterOK_hunkLines _ _) hfuel
-    rw [hoc, hnc, h2', normNl_eq]
+    rw [hoc, hnc, h2', hunk_eq]
     unfold afterHunk
     simp only [hunkLines, List.cons_append, getLine_lf, parseUnifiedRange_rangeText _ h2 hw2, Bool.not_true,
       Bool.false_eq_true, if_false]
-    obtain ⟨st', e1, e2, e3⟩ := ih h2 fuel' (n' + 1) (hunks ++ [h.normNl]) tail
+    obtain ⟨st', e1, e2, e3⟩ := ih h2 fuel' (n' + 1) (hunks ++ [h]) tail
       (fun x hx => hw x (List.mem_cons_of_mem _ hx)) ht
       (by simp only [hunkLines, List.cons_append, List.length_cons] at h1; omega)
     refine ⟨st', e1, ?_, e3⟩
     rw [e2]; simp
 
+/-- **unified round trip, exact**: what `write_hunk_as_unified` writes for writable hunks is read back by
+    `parse_unified_patch` as those very hunks — contents, operations, ranges and the terminator class (LF, CR LF, none)
+    of every line.  (Statement changed with the model: the writer now keeps CR LF; before, the hunks came back as
+    `hs.map Hunk.normNl`, see `unified_roundtrip_normNl`.) -/
 theorem unified_roundtrip (hs : List Hunk) (hne : hs ≠ []) (hw : ∀ h ∈ hs, h.writable = true)
     (tail : List Line) (ht : tailOkUnified tail = true) (lineNo : Nat) :
     ∃ par', parseUnifiedBody { s := { rest := splitLines (hs.flatMap writeHunkUnified) ++ tail }, lineNo := lineNo }
-        = .ok (hs.map Hunk.normNl, par') ∧ par'.s.rest = tail := by
+        = .ok (hs, par') ∧ par'.s.rest = tail := by
   rw [splitLines_hunks hs (fun h hh => (writable_spec h (hw h hh)).1) (fun h hh => (writable_spec h (hw h hh)).2.2.2.2.1)]
   cases hs with
   | nil => exact absurd rfl hne
@@ -822,6 +877,493 @@ theorem unified_roundtrip (hs : List Hunk) (hne : hs ≠ []) (hw : ∀ h ∈ hs,
     rw [e1]
     exact ⟨st'.par, by simp [e2], e3⟩
 
+/-- the old form of the round trip (LF/CRLF class forgotten) is a consequence of the exact one -/
+theorem unified_roundtrip_normNl (hs : List Hunk) (hne : hs ≠ []) (hw : ∀ h ∈ hs, h.writable = true)
+    (tail : List Line) (ht : tailOkUnified tail = true) (lineNo : Nat) :
+    ∃ hs' par', parseUnifiedBody { s := { rest := splitLines (hs.flatMap writeHunkUnified) ++ tail }, lineNo := lineNo }
+        = .ok (hs', par') ∧ hs'.map Hunk.normNl = hs.map Hunk.normNl ∧ par'.s.rest = tail := by
+  obtain ⟨par', h1, h2⟩ := unified_roundtrip hs hne hw tail ht lineNo
+  exact ⟨hs, par', h1, rfl, h2⟩
+
+
+/-! ### only the marker line makes a hunk line `.none` -/
+
+/-- every line `Parser::get_line` hands out ends in LF or CR LF -/
+theorem getLine_ne_none {p : Parser} {l : Line} {p' : Parser} (h : p.getLine = (some l, p')) : l.newline ≠ .none := by
+  unfold Parser.getLine at h
+  split at h
+  · simp at h
+  · rename_i l0 s' _
+    simp only [Prod.mk.injEq, Option.some.injEq] at h
+    obtain ⟨rfl, _⟩ := h
+    split
+    · simp
+    · assumption
+
+/-- `get_line` only ever shortens the list of unread lines -/
+theorem getLine_rest_sub (p : Parser) : ∀ x ∈ p.getLine.2.s.rest, x ∈ p.s.rest := by
+  intro x hx
+  unfold Parser.getLine PStream.getLine at hx
+  split at hx <;> rename_i heq
+  all_goals
+    split at heq
+    · simp only [Prod.mk.injEq] at heq; obtain ⟨_, rfl⟩ := heq; exact hx
+    · split at heq
+      · simp only [Prod.mk.injEq] at heq; obtain ⟨_, rfl⟩ := heq; exact hx
+      · split at heq
+        · simp only [Prod.mk.injEq] at heq; obtain ⟨_, rfl⟩ := heq; exact hx
+        · rename_i a r hr
+          split at heq
+          all_goals
+            simp only [Prod.mk.injEq] at heq; obtain ⟨_, rfl⟩ := heq
+            rw [hr]; exact List.mem_cons_of_mem _ hx
+
+/-- no line of the text begins with a backslash -/
+def NoBackslashLine (rest : List Line) : Prop := ∀ l ∈ rest, l.content.head? ≠ some BACKSLASH
+
+theorem peek_ne_backslash (s : PStream) (h : NoBackslashLine s.rest) : s.peek ≠ BACKSLASH := by
+  unfold PStream.peek
+  cases hr : s.rest with
+  | nil => simp only; decide
+  | cons l r =>
+    have := h l (by rw [hr]; exact List.mem_cons_self)
+    rcases l with ⟨content, nl⟩
+    cases content with
+    | nil => cases nl <;> simp only <;> decide
+    | cons c cs => simpa using this
+
+theorem parseUnifiedRange_lines (h : Hunk) (line : Bytes) : (parseUnifiedRange h line).2.lines = h.lines := by
+  rw [parseUnifiedRange_eq]
+  repeat' (first | split | simp only [])
+  all_goals rfl
+
+/-- `unifiedLoop_content` for every line of a hunk body, the empty line (taken for a context line) included -/
+theorem unifiedLoop_content' (fuel : Nat) (st : UState) (l : Line) (par' : Parser) (what : UInt8) (body : Bytes)
+    (hg : st.par.getLine = (some l, par')) (hc : st.content = true)
+    (hl : (if l.content.isEmpty then [SP] else l.content) = what :: body)
+    (hw : what = SP ∨ what = PLUS ∨ what = MINUS) :
+    unifiedLoop (fuel + 1) st =
+      let st3 := stepOld (stepNew { st with par := par', hunk := { st.hunk with lines := st.hunk.lines ++ [⟨what, ⟨body, l.newline⟩⟩] } } what) what
+      if st3.oldExp = 0 ∧ st3.newExp = 0 then
+        afterHunk fuel { st3 with hunks := st3.hunks ++ [st3.hunk], hunk := { st3.hunk with lines := [] } }
+      else unifiedLoop fuel st3 := by
+  rcases l with ⟨lc, lnl⟩
+  rcases st with ⟨par, hunks, hunk, content, oe, ne⟩
+  simp only at hc hg hl
+  subst hc
+  cases lc with
+  | nil =>
+    simp only [List.isEmpty_nil, if_true, List.cons.injEq] at hl
+    obtain ⟨rfl, rfl⟩ := hl
+    rw [unifiedLoop]
+    simp only []
+    rw [hg]
+    rfl
+  | cons c cs =>
+    simp only [List.isEmpty_cons, Bool.false_eq_true, if_false, List.cons.injEq] at hl
+    obtain ⟨rfl, rfl⟩ := hl
+    rcases hw with rfl | rfl | rfl
+    · rw [unifiedLoop]
+      simp only []
+      rw [hg]
+      rfl
+    · rw [unifiedLoop]
+      simp only []
+      rw [hg]
+      rfl
+    · rw [unifiedLoop]
+      simp only []
+      rw [hg]
+      rfl
+
+/-- a body line that begins with anything but ' ', '+', '-' is refused -/
+theorem unifiedLoop_content_bad (fuel : Nat) (st : UState) (l : Line) (par' : Parser) (what : UInt8) (body : Bytes)
+    (hg : st.par.getLine = (some l, par')) (hc : st.content = true)
+    (hl : (if l.content.isEmpty then [SP] else l.content) = what :: body)
+    (hw : ¬ (what = SP ∨ what = PLUS ∨ what = MINUS)) :
+    unifiedLoop (fuel + 1) st = .error .parserError := by
+  have hb : (what != SP && what != MINUS && what != PLUS) = true := by
+    simp only [not_or] at hw
+    simp [hw.1, hw.2.1, hw.2.2]
+  rw [unifiedLoop]
+  simp only []
+  rw [hg]
+  simp only [hc, Bool.not_true, Bool.false_eq_true, if_false, hl, hb, if_true]
+
+theorem stepNew_of_peek (st1 : UState) (what : UInt8) (hpk : st1.par.s.peek ≠ BACKSLASH) :
+    (stepNew st1 what).par = st1.par ∧ (stepNew st1 what).hunk = st1.hunk ∧ (stepNew st1 what).hunks = st1.hunks := by
+  unfold stepNew
+  split
+  · rw [if_neg (fun h => hpk h.2)]; exact ⟨rfl, rfl, rfl⟩
+  · exact ⟨rfl, rfl, rfl⟩
+
+theorem stepOld_of_peek (st1 : UState) (what : UInt8) (hpk : st1.par.s.peek ≠ BACKSLASH) :
+    (stepOld st1 what).par = st1.par ∧ (stepOld st1 what).hunk = st1.hunk ∧ (stepOld st1 what).hunks = st1.hunks := by
+  unfold stepOld
+  split
+  · rw [if_neg (fun h => hpk h.2)]; exact ⟨rfl, rfl, rfl⟩
+  · exact ⟨rfl, rfl, rfl⟩
+
+/-- no line of these hunk lines lacks its newline -/
+def NoNone (ls : List PatchLine) : Prop := ∀ pl ∈ ls, pl.line.newline ≠ .none
+
+/-- **only the marker makes a hunk line `.none`**: on a text without any `\` line the unified body loop produces no line
+    without newline — whatever the text is, one whose last line lacks its newline included -/
+theorem unifiedLoop_noNone : ∀ (fuel : Nat) (st : UState) (b : Bool) (st' : UState),
+    unifiedLoop fuel st = .ok (b, st') → NoBackslashLine st.par.s.rest →
+    (∀ h ∈ st.hunks, NoNone h.lines) → NoNone st.hunk.lines →
+    ∀ h ∈ st'.hunks, NoNone h.lines := by
+  intro fuel
+  induction fuel with
+  | zero =>
+    intro st b st' h _ hh _
+    simp only [unifiedLoop, Except.ok.injEq, Prod.mk.injEq] at h
+    obtain ⟨_, rfl⟩ := h
+    exact hh
+  | succ fuel ih =>
+    intro st b st' h hbs hh hk
+    cases hg : st.par.getLine with
+    | mk lo par' =>
+    have hsub : NoBackslashLine par'.s.rest := by
+      intro x hx
+      have := getLine_rest_sub st.par x
+      rw [hg] at this
+      exact hbs x (this hx)
+    cases lo with
+    | none =>
+      rw [unifiedLoop, hg] at h
+      simp only [Except.ok.injEq, Prod.mk.injEq] at h
+      obtain ⟨_, rfl⟩ := h
+      exact hh
+    | some l =>
+      by_cases hc : st.content = true
+      · obtain ⟨what, body, hl⟩ : ∃ what body, (if l.content.isEmpty then [SP] else l.content) = what :: body := by
+          cases hlc : l.content with
+          | nil => exact ⟨SP, [], by simp⟩
+          | cons c cs => exact ⟨c, cs, by simp⟩
+        by_cases hw : what = SP ∨ what = PLUS ∨ what = MINUS
+        · rw [unifiedLoop_content' fuel st l par' what body hg hc hl hw] at h
+          have hk1 : NoNone (st.hunk.lines ++ [⟨what, ⟨body, l.newline⟩⟩]) := by
+            intro pl hpl
+            rcases List.mem_append.1 hpl with hpl | hpl
+            · exact hk pl hpl
+            · simp only [List.mem_singleton] at hpl
+              subst hpl
+              exact (getLine_ne_none hg : l.newline ≠ .none)
+          have hpk := peek_ne_backslash par'.s hsub
+          obtain ⟨n1, n2, n3⟩ := stepNew_of_peek
+            { st with par := par', hunk := { st.hunk with lines := st.hunk.lines ++ [⟨what, ⟨body, l.newline⟩⟩] } } what hpk
+          obtain ⟨o1, o2, o3⟩ := stepOld_of_peek (stepNew
+            { st with par := par', hunk := { st.hunk with lines := st.hunk.lines ++ [⟨what, ⟨body, l.newline⟩⟩] } } what) what
+            (by rw [n1]; exact hpk)
+          rw [n1] at o1
+          rw [n2] at o2
+          rw [n3] at o3
+          generalize stepOld (stepNew
+            { st with par := par', hunk := { st.hunk with lines := st.hunk.lines ++ [⟨what, ⟨body, l.newline⟩⟩] } } what) what
+            = st3 at h o1 o2 o3
+          simp only at o1 o2 o3
+          dsimp only at h
+          have hh3 : ∀ x ∈ st3.hunks ++ [st3.hunk], NoNone x.lines := by
+            intro x hx
+            rcases List.mem_append.1 hx with hx | hx
+            · rw [o3] at hx; exact hh x hx
+            · simp only [List.mem_singleton] at hx
+              subst hx
+              rw [o2]; exact hk1
+          split at h
+          · -- the hunk is complete
+            unfold afterHunk at h
+            simp only at h
+            cases hg5 : st3.par.getLine with
+            | mk lo5 par5 =>
+            have hsub5 : NoBackslashLine par5.s.rest := by
+              intro x hx
+              have := getLine_rest_sub st3.par x
+              rw [hg5] at this
+              rw [o1] at this
+              exact hsub x (this hx)
+            rw [hg5] at h
+            cases lo5 with
+            | none =>
+              simp only [Except.ok.injEq, Prod.mk.injEq] at h
+              obtain ⟨_, rfl⟩ := h
+              exact hh3
+            | some l2 =>
+              simp only at h
+              have hlines := parseUnifiedRange_lines { st3.hunk with lines := [] } l2.content
+              generalize parseUnifiedRange { st3.hunk with lines := [] } l2.content = res at h hlines
+              rcases res with ⟨ok, h'⟩
+              simp only at h hlines
+              cases ok
+              · simp only [Bool.not_false, if_true, Except.ok.injEq, Prod.mk.injEq] at h
+                obtain ⟨_, rfl⟩ := h
+                exact hh3
+              · simp only [Bool.not_true, Bool.false_eq_true, if_false] at h
+                exact ih _ _ _ h hsub5 hh3 (by intro pl hpl; simp only [hlines] at hpl; cases hpl)
+          · exact ih _ _ _ h (by rw [o1]; exact hsub) (by rw [o3]; exact hh) (by rw [o2]; exact hk1)
+        · rw [unifiedLoop_content_bad fuel st l par' what body hg hc hl hw] at h
+          cases h
+      · have hc' : st.content = false := by simpa using hc
+        rw [unifiedLoop, hg] at h
+        simp only [hc', Bool.not_false, if_true] at h
+        have hlines := parseUnifiedRange_lines st.hunk l.content
+        generalize parseUnifiedRange st.hunk l.content = res at h hlines
+        rcases res with ⟨ok, h'⟩
+        simp only at h hlines
+        cases ok
+        · simp only [Bool.false_eq_true, if_false] at h
+          exact ih _ _ _ h hsub hh (by intro pl hpl; simp only [hlines] at hpl; exact hk pl hpl)
+        · simp only [if_true] at h
+          exact ih _ _ _ h hsub hh (by intro pl hpl; simp only [hlines] at hpl; exact hk pl hpl)
+
+theorem parseUnifiedBody_noNone (par : Parser) (hs : List Hunk) (par' : Parser)
+    (h : parseUnifiedBody par = .ok (hs, par')) (hnb : NoBackslashLine par.s.rest) :
+    ∀ hk ∈ hs, ∀ pl ∈ hk.lines, pl.line.newline ≠ .none := by
+  unfold parseUnifiedBody at h
+  split at h
+  · cases h
+  · rename_i st hl
+    simp only [Except.ok.injEq, Prod.mk.injEq] at h
+    obtain ⟨rfl, _⟩ := h
+    exact unifiedLoop_noNone _ _ _ _ hl hnb (by intro x hx; cases hx) (by intro x hx; cases hx)
+  · rename_i st hl
+    have := unifiedLoop_noNone _ _ _ _ hl hnb (by intro x hx; cases hx) (by intro x hx; cases hx)
+    split at h
+    · simp only [Except.ok.injEq, Prod.mk.injEq] at h; obtain ⟨rfl, _⟩ := h; exact this
+    · split at h
+      · cases h
+      · split at h
+        · cases h
+        · simp only [Except.ok.injEq, Prod.mk.injEq] at h; obtain ⟨rfl, _⟩ := h; exact this
+
+/-- in the text of an emitted hunk the marker line follows exactly the lines that lack their newline -/
+theorem marker_follows_iff_none (pl : PatchLine) (rest : List PatchLine) (after : List Line)
+    (hops : ∀ x ∈ rest, x.op = SP ∨ x.op = PLUS ∨ x.op = MINUS) (hafter : AfterOK after) :
+    (∃ l, (bodyLines (pl :: rest) ++ after)[1]? = some l ∧ l.content.head? = some BACKSLASH) ↔
+      pl.line.newline = .none := by
+  rw [bodyLines_cons_append]
+  by_cases hn : pl.line.newline = .none
+  · simp only [hn, if_true, iff_true]
+    exact ⟨markerLine, rfl, rfl⟩
+  · simp only [hn, if_false, iff_false, List.nil_append]
+    rintro ⟨l, hl, hb⟩
+    simp only [List.getElem?_cons_succ] at hl
+    cases rest with
+    | nil =>
+      simp only [bodyLines, List.nil_append] at hl
+      have : after.head? = some l := by rw [← hl]; cases after <;> rfl
+      exact hafter l this hb
+    | cons y r =>
+      simp only [bodyLines, List.cons_append, List.getElem?_cons_zero, Option.some.injEq] at hl
+      subst hl
+      simp only [List.head?_cons, Option.some.injEq] at hb
+      rcases hops y List.mem_cons_self with h | h | h <;> rw [h] at hb <;> exact absurd hb (by decide)
+
+/-! ### the final newline of the patch text does not matter to the unified body parser -/
+
+/-- two parsers over the same text, `q`'s text lacking the newline of its last line (`c`):
+    either both stand before the same lines, or both have read everything -/
+def Sim (c : Bytes) (p q : Parser) : Prop :=
+  (∃ suf, (∀ l ∈ suf, l.newline ≠ .none) ∧
+      p.s = ⟨suf ++ [⟨c, .lf⟩], false, false⟩ ∧ q.s = ⟨suf ++ [⟨c, .none⟩], false, false⟩) ∨
+  (p.s.rest = [] ∧ q.s.rest = [] ∧ q.s.eof = true)
+
+theorem Sim.getLine {c : Bytes} {p q : Parser} (h : Sim c p q) :
+    p.getLine.1 = q.getLine.1 ∧ Sim c p.getLine.2 q.getLine.2 := by
+  rcases p with ⟨ps, pn⟩
+  rcases q with ⟨qs, qn⟩
+  rcases h with ⟨suf, hsuf, hp, hq⟩ | ⟨hp, hq, he⟩
+  · simp only at hp hq
+    subst hp hq
+    cases suf with
+    | nil =>
+      refine ⟨rfl, Or.inr ⟨rfl, rfl, rfl⟩⟩
+    | cons x suf =>
+      have hx : x.newline ≠ .none := hsuf x List.mem_cons_self
+      have e1 : Parser.getLine ⟨⟨(x :: suf) ++ [⟨c, .lf⟩], false, false⟩, pn⟩
+          = (some x, ⟨⟨suf ++ [⟨c, .lf⟩], false, false⟩, pn + 1⟩) := by
+        simp [Parser.getLine, PStream.getLine, hx]
+      have e2 : Parser.getLine ⟨⟨(x :: suf) ++ [⟨c, .none⟩], false, false⟩, qn⟩
+          = (some x, ⟨⟨suf ++ [⟨c, .none⟩], false, false⟩, qn + 1⟩) := by
+        simp [Parser.getLine, PStream.getLine, hx]
+      rw [e1, e2]
+      exact ⟨rfl, Or.inl ⟨suf, fun l hl => hsuf l (List.mem_cons_of_mem _ hl), rfl, rfl⟩⟩
+  · rcases ps with ⟨pr, pe, pb⟩
+    rcases qs with ⟨qr, qe, qb⟩
+    simp only at hp hq he
+    subst hp hq he
+    cases pe <;> cases pb <;> exact ⟨rfl, Or.inr ⟨rfl, rfl, rfl⟩⟩
+
+theorem Sim.peek {c : Bytes} {p q : Parser} (h : Sim c p q) : p.s.peek = BACKSLASH ↔ q.s.peek = BACKSLASH := by
+  rcases h with ⟨suf, _, hp, hq⟩ | ⟨hp, hq, _⟩
+  · rw [hp, hq]
+    cases suf with
+    | nil =>
+      cases c with
+      | nil => simp only [PStream.peek, List.nil_append]; decide
+      | cons a as => simp [PStream.peek]
+    | cons x suf => simp [PStream.peek]
+  · unfold PStream.peek
+    rw [hp, hq]
+
+/-- loop states that differ in the parser only -/
+def USim (c : Bytes) (s t : UState) : Prop :=
+  Sim c s.par t.par ∧ s.hunks = t.hunks ∧ s.hunk = t.hunk ∧ s.content = t.content ∧ s.oldExp = t.oldExp ∧
+    s.newExp = t.newExp
+
+/-- results that differ in the parser only -/
+def RSim : Except Exn (Bool × UState) → Except Exn (Bool × UState) → Prop
+  | .error e1, .error e2 => e1 = e2
+  | .ok (b1, s), .ok (b2, t) => b1 = b2 ∧ s.hunks = t.hunks ∧ s.content = t.content ∧ s.oldExp = t.oldExp ∧ s.newExp = t.newExp
+  | _, _ => False
+
+theorem stepNew_sim {c : Bytes} {s t : UState} (h : USim c s t) (what : UInt8) : USim c (stepNew s what) (stepNew t what) := by
+  obtain ⟨h1, h2, h3, h4, h5, h6⟩ := h
+  unfold stepNew
+  split
+  · simp only [h6]
+    by_cases hc : t.newExp - 1 = 0 ∧ s.par.s.peek = BACKSLASH
+    · rw [if_pos hc, if_pos ⟨hc.1, h1.peek.1 hc.2⟩]
+      exact ⟨h1.getLine.2, h2, by simp only [h3], h4, h5, rfl⟩
+    · rw [if_neg hc, if_neg (fun hh => hc ⟨hh.1, h1.peek.2 hh.2⟩)]
+      exact ⟨h1, h2, h3, h4, h5, rfl⟩
+  · exact ⟨h1, h2, h3, h4, h5, h6⟩
+
+theorem stepOld_sim {c : Bytes} {s t : UState} (h : USim c s t) (what : UInt8) : USim c (stepOld s what) (stepOld t what) := by
+  obtain ⟨h1, h2, h3, h4, h5, h6⟩ := h
+  unfold stepOld
+  split
+  · simp only [h5]
+    by_cases hc : t.oldExp - 1 = 0 ∧ s.par.s.peek = BACKSLASH
+    · rw [if_pos hc, if_pos ⟨hc.1, h1.peek.1 hc.2⟩]
+      exact ⟨h1.getLine.2, h2, by simp only [h3], h4, rfl, h6⟩
+    · rw [if_neg hc, if_neg (fun hh => hc ⟨hh.1, h1.peek.2 hh.2⟩)]
+      exact ⟨h1, h2, h3, h4, rfl, h6⟩
+  · exact ⟨h1, h2, h3, h4, h5, h6⟩
+
+theorem Sim.length {c : Bytes} {p q : Parser} (h : Sim c p q) : p.s.rest.length = q.s.rest.length := by
+  rcases h with ⟨suf, _, hp, hq⟩ | ⟨hp, hq, _⟩
+  · rw [hp, hq]; simp
+  · rw [hp, hq]
+
+theorem afterHunk_sim (c : Bytes) (fuel : Nat)
+    (ih : ∀ s t : UState, USim c s t → RSim (unifiedLoop fuel s) (unifiedLoop fuel t))
+    (s t : UState) (h : USim c s t) : RSim (afterHunk fuel s) (afterHunk fuel t) := by
+  obtain ⟨h1, h2, h3, h4, h5, h6⟩ := h
+  have hgl := h1.getLine
+  unfold afterHunk
+  cases hg : s.par.getLine with
+  | mk lo p1 =>
+  cases hg' : t.par.getLine with
+  | mk lo' q1 =>
+  rw [hg, hg'] at hgl
+  simp only at hgl
+  obtain ⟨rfl, hsim1⟩ := hgl
+  cases lo with
+  | none => exact ⟨rfl, h2, h4, h5, h6⟩
+  | some l2 =>
+    simp only [← h3]
+    generalize parseUnifiedRange s.hunk l2.content = res
+    rcases res with ⟨ok, h'⟩
+    cases ok
+    · exact ⟨rfl, h2, h4, h5, h6⟩
+    · exact ih _ _ ⟨hsim1, h2, rfl, rfl, rfl, rfl⟩
+
+/-- the unified body loop does the same on a text and on the same text without the newline of its last line -/
+theorem unifiedLoop_sim (c : Bytes) : ∀ (fuel : Nat) (s t : UState), USim c s t →
+    RSim (unifiedLoop fuel s) (unifiedLoop fuel t) := by
+  intro fuel
+  induction fuel with
+  | zero =>
+    intro s t h
+    obtain ⟨h1, h2, h3, h4, h5, h6⟩ := h
+    exact ⟨rfl, h2, h4, h5, h6⟩
+  | succ fuel ih =>
+    intro s t h
+    obtain ⟨h1, h2, h3, h4, h5, h6⟩ := h
+    have hgl := h1.getLine
+    cases hg : s.par.getLine with
+    | mk lo p1 =>
+    cases hg' : t.par.getLine with
+    | mk lo' q1 =>
+    rw [hg, hg'] at hgl
+    simp only at hgl
+    obtain ⟨rfl, hsim1⟩ := hgl
+    cases lo with
+    | none =>
+      rw [unifiedLoop, unifiedLoop, hg, hg']
+      exact ⟨rfl, h2, h4, h5, h6⟩
+    | some l =>
+      by_cases hc : s.content = true
+      · have hc' : t.content = true := h4 ▸ hc
+        obtain ⟨what, body, hl⟩ : ∃ what body, (if l.content.isEmpty then [SP] else l.content) = what :: body := by
+          cases hlc : l.content with
+          | nil => exact ⟨SP, [], by simp⟩
+          | cons a as => exact ⟨a, as, by simp⟩
+        by_cases hw : what = SP ∨ what = PLUS ∨ what = MINUS
+        · rw [unifiedLoop_content' fuel s l p1 what body hg hc hl hw,
+            unifiedLoop_content' fuel t l q1 what body hg' hc' hl hw]
+          have hs1 : USim c
+              { s with par := p1, hunk := { s.hunk with lines := s.hunk.lines ++ [⟨what, ⟨body, l.newline⟩⟩] } }
+              { t with par := q1, hunk := { t.hunk with lines := t.hunk.lines ++ [⟨what, ⟨body, l.newline⟩⟩] } } :=
+            ⟨hsim1, h2, by simp only [h3], h4, h5, h6⟩
+          have hs3 := stepOld_sim (stepNew_sim hs1 what) what
+          generalize stepOld (stepNew
+            { s with par := p1, hunk := { s.hunk with lines := s.hunk.lines ++ [⟨what, ⟨body, l.newline⟩⟩] } } what) what
+            = s3 at hs3
+          generalize stepOld (stepNew
+            { t with par := q1, hunk := { t.hunk with lines := t.hunk.lines ++ [⟨what, ⟨body, l.newline⟩⟩] } } what) what
+            = t3 at hs3
+          obtain ⟨g1, g2, g3, g4, g5, g6⟩ := hs3
+          dsimp only
+          by_cases hz : s3.oldExp = 0 ∧ s3.newExp = 0
+          · rw [if_pos hz, if_pos (g5 ▸ g6 ▸ hz)]
+            exact afterHunk_sim c fuel ih _ _ ⟨g1, by simp only [g2, g3], by simp only [g3], g4, g5, g6⟩
+          · rw [if_neg hz, if_neg (g5 ▸ g6 ▸ hz)]
+            exact ih _ _ ⟨g1, g2, g3, g4, g5, g6⟩
+        · rw [unifiedLoop_content_bad fuel s l p1 what body hg hc hl hw,
+            unifiedLoop_content_bad fuel t l q1 what body hg' hc' hl hw]
+          exact rfl
+      · have hc1 : s.content = false := by simpa using hc
+        have hc2 : t.content = false := h4 ▸ hc1
+        rw [unifiedLoop, unifiedLoop, hg, hg']
+        simp only [hc1, hc2, Bool.not_false, if_true, ← h3]
+        generalize parseUnifiedRange s.hunk l.content = res
+        rcases res with ⟨ok, h'⟩
+        cases ok
+        · exact ih _ _ ⟨hsim1, h2, rfl, rfl, h5, h6⟩
+        · exact ih _ _ ⟨hsim1, h2, rfl, rfl, rfl, rfl⟩
+
+/-- **the final newline of the patch text does not matter**: the unified body parser reads the same hunks (or fails in the
+    same way) from a text and from that text without the newline of its last line -/
+theorem parseUnifiedBody_final_newline (ls : List Line) (c : Bytes) (n : Nat) (hls : ∀ l ∈ ls, l.newline ≠ .none) :
+    (parseUnifiedBody ⟨⟨ls ++ [⟨c, .none⟩], false, false⟩, n⟩).map (·.1)
+      = (parseUnifiedBody ⟨⟨ls ++ [⟨c, .lf⟩], false, false⟩, n⟩).map (·.1) := by
+  have hsim : Sim c ⟨⟨ls ++ [⟨c, .lf⟩], false, false⟩, n⟩ ⟨⟨ls ++ [⟨c, .none⟩], false, false⟩, n⟩ :=
+    Or.inl ⟨ls, hls, rfl, rfl⟩
+  have hlen := hsim.length
+  have := unifiedLoop_sim c ((ls ++ [(⟨c, .lf⟩ : Line)]).length + 2)
+    { par := ⟨⟨ls ++ [⟨c, .lf⟩], false, false⟩, n⟩ } { par := ⟨⟨ls ++ [⟨c, .none⟩], false, false⟩, n⟩ }
+    ⟨hsim, rfl, rfl, rfl, rfl, rfl⟩
+  unfold parseUnifiedBody
+  simp only at hlen ⊢
+  rw [← hlen]
+  revert this
+  generalize unifiedLoop _ { par := ⟨⟨ls ++ [⟨c, .lf⟩], false, false⟩, n⟩ } = r1
+  generalize unifiedLoop _ { par := ⟨⟨ls ++ [⟨c, .none⟩], false, false⟩, n⟩ } = r2
+  intro hr
+  rcases r1 with e1 | ⟨b1, s1⟩ <;> rcases r2 with e2 | ⟨b2, s2⟩
+  · simp only [RSim] at hr; subst hr; rfl
+  · exact hr.elim
+  · exact hr.elim
+  · obtain ⟨rfl, k1, k2, k3, k4⟩ := hr
+    cases b1
+    · simp only [k1, k2, k3, k4]
+      repeat' split
+      all_goals rfl
+    · simp only [k1]
+      rfl
 
 /-! ### the context writer on writable hunks -/
 
